@@ -524,7 +524,28 @@ def r9_port_numbers_are_parsed_as_u16(ctx):
     R.check(not wrap, "C14.R9", "authority:no-wrapping-arithmetic", "no wrapping / truncating integer operation in the authority module", "the authority module computes with wrapping / truncating integer operations (%s): a port outside 0..=65535 wraps onto a valid one" % sorted({d for d, _ in wrap}), wrap[0][1] if wrap else None)
 
 
-RULES = [r8_ports_registered_per_host, r9_port_numbers_are_parsed_as_u16, r1_gate, r2_port_table, r3_authority_table, r4_default_port, r5_one_parser_and_enabled_filter, r6_both_sides_spell_hosts_alike, r7_parser_fails_closed, rstatus_http_status_table]
+def r10_header_value_is_taken_whole(ctx):
+    """the authority that is matched is the authority that was sent: read_header_value hands the Host header's text on as
+    it is (no split / trim / case change - `example.com, evil.test` is one malformed value, not `example.com`), and
+    Authority::from_http_request passes exactly that text to the parser."""
+    from .common import text_transforms
+    F, R = ctx.F, ctx.R
+    got = text_transforms(F, R, (r"^jsonrpsee_core::http_helpers::read_header_value$",))
+    R.check(not got, "C14.R10", "read_header_value:verbatim", "read_header_value returns the header text unchanged", "read_header_value transforms the header text (%s) before handing it on: the host filter validates only a part of the Host header (`example.com, evil.test` passes as `example.com`)" % sorted(got), None)
+    b = F.one(r"^jsonrpsee_core::http_helpers::read_header_value$")
+    tr = ctx.tracer(follow_callers=False, follow_fields=False)
+    lv = [l for l in tr.origins(b, {"cp": {"l": 0}}) if not (l.kind == "agg" and l.detail.get("variant") == "None")]
+    ok = bool(lv) and all((l.kind == "call" and re.search(r"HeaderValue::to_str$|FromResidual.*::from_residual$", l.detail.get("callee") or "")) or (l.kind == "agg" and l.detail.get("variant") in ("Some", "None")) for l in lv) and any(l.kind == "call" and re.search(r"HeaderValue::to_str$", l.detail.get("callee") or "") for l in lv)
+    R.check(ok, "C14.R10", "read_header_value:result-is-to_str", "what read_header_value returns is HeaderValue::to_str's text", "read_header_value returns %s" % [flow.leaf_str(l)[:60] for l in lv][:4], "%s:%d" % (b.file, b.lo))
+    # u16 -> Port is Port::Fixed(port) for every port number (0 included: `host:0` is not `host:*`)
+    fb = F.one(r"Port as std::convert::From<u16>>::from$")
+    R.fn(fb)
+    aggs = [st for blk in fb.blocks if not blk.get("cleanup") for st in blk["st"] if st["s"] == "assign" and st["rv"]["k"] == "agg" and (st["rv"].get("adt") or "").endswith("authority::Port")]
+    branches = [bi for bi, blk in enumerate(fb.blocks) if bi in fb.reachable and not blk.get("cleanup") and blk["term"] and blk["term"]["t"] == "switch"]
+    R.check(len(aggs) == 1 and aggs[0]["rv"].get("variant") == "Fixed" and not branches, "C14.R10", "port-from-u16:always-fixed", "a numeric port is always Port::Fixed(n)", "<Port as From<u16>>::from does not map every number to Port::Fixed (variants built: %s, %d branches): some port number is read as a wildcard / default, so an entry `host:<n>` admits requests on other ports" % (sorted(a["rv"].get("variant") for a in aggs), len(branches)), "%s:%d" % (fb.file, fb.lo))
+
+
+RULES = [r10_header_value_is_taken_whole, r8_ports_registered_per_host, r9_port_numbers_are_parsed_as_u16, r1_gate, r2_port_table, r3_authority_table, r4_default_port, r5_one_parser_and_enabled_filter, r6_both_sides_spell_hosts_alike, r7_parser_fails_closed, rstatus_http_status_table]
 
 LEVEL_TEXT = (
     "The gate (who may reach the inner service) is decided by dominance for every path of HostFilter::call, and the three "
